@@ -21,7 +21,7 @@ EXPLANATION = (
     'assignments by identity of the evaluated receiver, and FuncScope.get_argument binds exactly the first '
     'parameter of a method to that instance. That evaluation reaches the right class for an arbitrary expression '
     'is NOT decided.')
-TECHNIQUE = 'abstract interpretation of the attribute-table merge on a symbolic class hierarchy + dispatch-chain analysis'
+TECHNIQUE = 'abstract interpretation of the attribute-table merge on a symbolic class hierarchy, of evaluate/declarations dispatch on stub nodes of every class, and of the instance-assignment grouping'
 
 NAME = 'supp/name.py'
 MRO = ['D', 'B', 'A', 'C']          # D(B, C), B(A): depth-first left-to-right == C3 (no repeated ancestors)
